@@ -13,6 +13,7 @@
   exactly these obligations.
 -/
 import RotoV.Model.RegistrationDeclType
+import RotoV.Lemmas.RegistrationTypeIndex
 import RotoV.Generated.DeclType
 
 namespace RotoV.C18
@@ -93,23 +94,115 @@ theorem declare_type_registered_rust_type_rejected (st : St) (scope : ScopeId) (
 /-- `NamesOfTypes` is an invariant of registration: the entry `declare_type`
     pushes keeps the two indexes in step. -/
 theorem names_of_types_insert (st : St) (hn : NamesOfTypes st) (id : TyId) (nm : RName)
-    (hfree : st.types id = none) : NamesOfTypes (st.insertType id nm) := by
-  intro k
-  simp only [St.insertType]
-  by_cases hk : k = nm
-  · subst hk; simp only [if_true]
-    exact ⟨fun _ => ⟨id, by simp⟩, fun _ => trivial⟩
-  · simp only [hk, if_false]
-    rw [hn k]
-    constructor
-    · rintro ⟨i, hi⟩
-      refine ⟨i, ?_⟩
-      have : i ≠ id := by rintro rfl; rw [hfree] at hi; cases hi
-      simp [this, hi]
-    · rintro ⟨i, hi⟩
-      by_cases hid : i = id
-      · subst hid; simp at hi; exact absurd hi.symm hk
-      · simp [hid] at hi; exact ⟨i, hi⟩
+    (hfree : st.types id = none) : NamesOfTypes (st.insertType id nm) :=
+  namesOfTypes_insertType st hn id nm hfree
+
+/-! ## `NamesOfTypes` is a fact about every reachable runtime, not a hypothesis
+
+  (growth round, branch wt-h18)  `declare_type_guards_as_modelled` assumed the
+  invariant that ties the model's two indexes of `Vec<RuntimeType>`; it was
+  proved kept by the one entry `declare_type` pushes and never established.
+  `Lemmas/RegistrationTypeIndex.lean` establishes it for the initial runtime
+  and carries it through `register` (closed form of pass 2) and histories. -/
+
+/-- **The initial runtime has the invariant** when no Rust type is listed as a
+    primitive under two names (the built-in library registers each primitive
+    once; the harness's table is `u64 u32 String bool`). -/
+theorem names_of_types_init (prims : List (Name × TyId)) (others : List Name)
+    (hone : ∀ p ∈ prims, ∀ q ∈ prims, p.2 = q.2 → p.1 = q.1) : NamesOfTypes (St.init prims others) :=
+  namesOfTypes_init prims others hone
+
+/-- … and the side condition is needed: one Rust type listed under two names is
+    found by its first name only, the second name answers `typeNames` without
+    any entry of `types` carrying it. -/
+theorem names_of_types_init_needs_one_name :
+    ¬ NamesOfTypes (St.init [(1, 100), (2, 100)] []) := by
+  intro h
+  obtain ⟨id, hid⟩ := (h ⟨[], 2⟩).1 (by decide)
+  simp only [St.init] at hid
+  by_cases h100 : id = 100
+  · subst h100; simp at hid
+  · have : List.find? (fun p : Name × TyId => decide (p.2 = id)) [(1, 100), (2, 100)] = none := by
+      simp [List.find?, Ne.symm h100]
+    rw [this] at hid; cases hid
+
+/-- **Every successful registration keeps it** (any library, any lexer verdict,
+    any well-formed runtime): only pass 2 writes the two indexes, one entry per
+    `type` item, each for a Rust type that had none. -/
+theorem names_of_types_register (lex : Name → Lex) (st st' : St) (hw : WF st) (hn : NamesOfTypes st)
+    (items : Items) (h : register Cfg.fixed lex st items = .ok st') : NamesOfTypes st' :=
+  namesOfTypes_register lex st st' hw hn items h
+
+/-- **… and every history of adds** on the initial runtime, rejected adds included. -/
+theorem names_of_types_history (lex : Name → Lex) (prims : List (Name × TyId)) (others : List Name)
+    (hone : ∀ p ∈ prims, ∀ q ∈ prims, p.2 = q.2 → p.1 = q.1) (libs : List Items) :
+    NamesOfTypes (session Cfg.fixed lex (St.init prims others) libs).1 :=
+  (namesOfTypes_session lex libs _ (wf_init prims others) (namesOfTypes_init prims others hone)).2
+
+/-- **The guards of `declare_type` = the model's two early exits, on every
+    runtime a host can reach** (full form of `declare_type_guards_as_modelled`:
+    no hypothesis on the runtime is left).  After ANY history of libraries
+    offered to the initial runtime, for every scope, identifier and Rust type:
+    some registered entry trips a regenerated guard iff the model's
+    `declareType` takes its `typeTwice` exit or its first `nameTaken` exit. -/
+theorem declare_type_guards_as_modelled_reachable (lex : Name → Lex) (prims : List (Name × TyId))
+    (others : List Name) (hone : ∀ p ∈ prims, ∀ q ∈ prims, p.2 = q.2 → p.1 = q.1)
+    (libs : List Items) (scope : ScopeId) (n : Name) (id : TyId) :
+    SomeEntryRejects guards (session Cfg.fixed lex (St.init prims others) libs).1 scope n id ↔
+      (((session Cfg.fixed lex (St.init prims others) libs).1.types id).isSome = true ∨
+        (session Cfg.fixed lex (St.init prims others) libs).1.typeNames ⟨scope, n⟩ = true) :=
+  declare_type_guards_as_modelled _ (names_of_types_history lex prims others hone libs) scope n id
+
+/-- the harness's initial runtime: `u64 u32 String bool` (names 0–3) as Rust types 100–103 -/
+def harnessPrims : List (Name × TyId) := [(0, 100), (1, 101), (2, 102), (3, 103)]
+
+theorem harnessPrims_one_name : ∀ p ∈ harnessPrims, ∀ q ∈ harnessPrims, p.2 = q.2 → p.1 = q.1 := by
+  decide
+
+/-- non-vacuity: the initial runtime of the correspondence run has the invariant -/
+example : NamesOfTypes (St.init harnessPrims [4, 5]) :=
+  names_of_types_init _ _ harnessPrims_one_name
+
+/-- non-vacuity of the history form: a library that registers Rust type 7 as
+    `Meters` (name 6) in module 9 is accepted, and afterwards the same Rust type
+    under the same identifier at the root trips a guard *through an entry that
+    the history itself pushed*. -/
+example : SomeEntryRejects guards
+    (session Cfg.fixed (fun _ => ⟨some (some .ident), false, true⟩) (St.init harnessPrims [4, 5])
+      [.cons (.module 9 (.cons (.type 6 7) .nil)) .nil]).1 [] 6 7 := by
+  rw [declare_type_guards_as_modelled_reachable _ _ _ harnessPrims_one_name]
+  left
+  decide
+
+/-- **`declare_type` decided by the regenerated guards, end to end** (every
+    runtime reachable by a history of adds, every type item): the registration
+    of `type n = <Rust type id>` in `scope` succeeds iff NO registered entry
+    trips a guard regenerated from the source and the name is free in its own
+    scope or that of a pre-declared primitive — and then the runtime is
+    extended by exactly that declaration and that entry (`TOp.apply`). -/
+theorem declare_type_ok_iff_no_guard_reachable (lex : Name → Lex) (prims : List (Name × TyId))
+    (others : List Name) (hone : ∀ p ∈ prims, ∀ q ∈ prims, p.2 = q.2 → p.1 = q.1)
+    (libs : List Items) (t : TOp) (st' : St) :
+    declareType Cfg.fixed t.scope t.n t.id (session Cfg.fixed lex (St.init prims others) libs).1 = .ok st' ↔
+      (¬ SomeEntryRejects guards (session Cfg.fixed lex (St.init prims others) libs).1 t.scope t.n t.id ∧
+        ((session Cfg.fixed lex (St.init prims others) libs).1.decls t.nm = none ∨
+          ∃ d, (session Cfg.fixed lex (St.init prims others) libs).1.decls t.nm = some d ∧ d.kind = .prim)) ∧
+      st' = t.apply (session Cfg.fixed lex (St.init prims others) libs).1 := by
+  rw [declare_type_guards_as_modelled_reachable lex prims others hone libs]
+  generalize (session Cfg.fixed lex (St.init prims others) libs).1 = st
+  have h := TOp.run_ok_iff t st st'
+  unfold TOp.run at h
+  rw [h]
+  unfold TOp.free TOp.nm
+  cases ht : st.types t.id <;> cases hn : st.typeNames ⟨t.scope, t.n⟩ <;> simp
+
+/-- non-vacuity: after the history that registers `Meters`, another Rust type
+    under a free name in a sibling module is registered -/
+example : ∃ st', declareType Cfg.fixed [2] 6 8
+    (session Cfg.fixed (fun _ => ⟨some (some .ident), false, true⟩) (St.init harnessPrims [4, 5])
+      [.cons (.module 9 (.cons (.type 6 7) .nil)) .nil]).1 = .ok st' :=
+  ⟨_, (declare_type_ok_iff_no_guard_reachable _ _ _ harnessPrims_one_name _ ⟨[2], 6, 8⟩ _).2
+    ⟨⟨by rw [declare_type_guards_as_modelled_reachable _ _ _ harnessPrims_one_name]; decide, Or.inl (by decide)⟩, rfl⟩⟩
 
 /-! ## non-vacuity, and what a narrowed guard does -/
 
